@@ -30,6 +30,12 @@ def ieee_events(n, seed):
                 if numpy.isnan(r):
                     continue
                 evs.append(dict(id=len(evs), op=op, fmt=dt, a=bits.fbits(a, dt), b=bits.fbits(b, dt), r=bits.fbits(r, dt)))
+            if b != 0:
+                r = a / b
+                if not numpy.isnan(r):
+                    evs.append(dict(id=len(evs), op="div", fmt=dt, a=bits.fbits(a, dt), b=bits.fbits(b, dt), r=bits.fbits(r, dt)))
+            if numpy.isfinite(a) and not numpy.signbit(a):
+                evs.append(dict(id=len(evs), op="sqrt", fmt=dt, a=bits.fbits(a, dt), b=[], r=bits.fbits(numpy.sqrt(a), dt)))
             evs.append(dict(id=len(evs), op="lt", fmt=dt, a=bits.fbits(a, dt), b=bits.fbits(b, dt), r=[1] if a < b else []))
             if numpy.isfinite(a):
                 evs.append(dict(id=len(evs), op="next", fmt=dt, a=bits.fbits(a, dt), b=[], r=bits.fbits(numpy.nextafter(a, inf), dt)))
